@@ -69,11 +69,19 @@ type RunOpts struct {
 	Strategy int // -1: draw from seed
 	KeepHist int
 	MaxSteps int
+	Free     bool // free-running (race detector) mode
 }
 
 // RunOne executes params of fam under seed inside a fresh bubble.
 func RunOne(t *testing.T, fam *Family, params any, seed uint64, o RunOpts) (res *RunResult) {
 	res = &RunResult{Family: fam.Name, Seed: seed}
+	RunOneInto(t, fam, params, seed, o, res)
+	return res
+}
+
+// RunOneInto fills res in place (the testing package ends a test in which the
+// race detector fired with Goexit: the caller still has what was recorded).
+func RunOneInto(t *testing.T, fam *Family, params any, seed uint64, o RunOpts, res *RunResult) {
 	defer func() {
 		if r := recover(); r != nil {
 			msg := fmt.Sprint(r)
@@ -102,8 +110,18 @@ func RunOne(t *testing.T, fam *Family, params any, seed uint64, o RunOpts) (res 
 		}
 		res.Strategy = e.Strategy
 		e.initStrategy()
-		e.W = simhook.NewWorld()
-		e.W.OrderFn = e.order
+		if o.Free {
+			e.Free = true
+			simhook.ChaosCrash = func(site, value, stack string) {
+				histMu.Lock()
+				e.freeCrashes = append(e.freeCrashes, simhook.Crash{Task: site, Value: value, Stack: stack})
+				histMu.Unlock()
+			}
+			simhook.SetChaos(seed)
+		} else {
+			e.W = simhook.NewWorld()
+			e.W.OrderFn = e.order
+		}
 		e.start = time.Now()
 		defer simhook.EndWorld()
 
@@ -120,7 +138,7 @@ func RunOne(t *testing.T, fam *Family, params any, seed uint64, o RunOpts) (res 
 		res.Steps = e.Step
 		res.StepLimit = e.StepLimitHit
 		res.Fingerprint = e.Fingerprint()
-		res.Crashes = e.W.Crashes()
+		res.Crashes = e.Crashes()
 		res.Notes = e.Notes
 		res.Tape = e.Tape
 		res.Diverged = e.Diverged
@@ -142,14 +160,13 @@ func RunOne(t *testing.T, fam *Family, params any, seed uint64, o RunOpts) (res 
 		ncr := len(res.Crashes)
 		e.Teardown()
 		res.Leaked = e.Leaked()
-		if cs := e.W.Crashes(); len(cs) > ncr {
+		if cs := e.Crashes(); len(cs) > ncr {
 			res.TeardownCrashes = cs[ncr:]
 		}
 		var y, u, lm int64
 		y, u, lm, res.Tasks = e.W.Stats()
 		res.Yields, res.Unreg, res.LockMiss = y, u, lm
 	})
-	return res
 }
 
 func stack() []byte {
